@@ -41,6 +41,10 @@ def fail_coq(f):
 
 
 def pred_coq(p):
+    if p.get("em"):
+        q = dict(p)
+        em, er = q.pop("em"), q.pop("er", 0)
+        return "(PExcept %s %s %s)" % (pred_coq(q), z(em), z(er))
     k = p["kind"]
     if k == "lt":
         return "(PLt %s)" % z(p.get("c", 0))
@@ -137,6 +141,8 @@ def gen_code(g):
         return 4
     if g.startswith("steady"):
         return 5
+    if g.startswith("pre-cancelled"):
+        return 6
     if g.startswith("free-running"):
         return 9
     return 0
